@@ -306,6 +306,15 @@ thread_local! {
     static GUARD_DEPTH: std::cell::Cell<u32> = const { std::cell::Cell::new(0) };
 }
 
+static UNGUARDED: Mutex<Option<String>> = Mutex::new(None);
+/// First panic that happened outside `guarded` (if any).
+pub fn unguarded_panic() -> Option<String> {
+    UNGUARDED.lock().unwrap_or_else(|e| e.into_inner()).clone()
+}
+
+/// The panic hook is process-wide; threads spawned by checks need nothing extra.
+pub fn install_panic_hook_thread() {}
+
 pub fn install_panic_hook() {
     std::panic::set_hook(Box::new(|info| {
         let msg = if let Some(s) = info.payload().downcast_ref::<&str>() {
@@ -317,8 +326,13 @@ pub fn install_panic_hook() {
         };
         let loc = info.location().map(|l| format!("{}:{}", l.file(), l.line())).unwrap_or_default();
         if GUARD_DEPTH.with(|g| g.get()) == 0 {
-            // a panic of the harness itself (outside any guarded subject call): make it visible
-            eprintln!("HARNESS PANIC: {msg} @ {loc}");
+            // a panic outside any guarded subject call: either the harness itself, or the library
+            // panicking in a call the harness did not expect to fail. Make it visible and keep it.
+            eprintln!("UNGUARDED PANIC: {msg} @ {loc}");
+            let mut g = UNGUARDED.lock().unwrap_or_else(|e| e.into_inner());
+            if g.is_none() {
+                *g = Some(format!("{msg} @ {loc}"));
+            }
         }
         LAST_PANIC.with(|p| *p.borrow_mut() = Some(format!("{msg} @ {loc}")));
     }));
